@@ -65,8 +65,10 @@ PROP = dict(
                "constants inherited from the formats (32 MiB CAR section cap of go-car, 16 MiB = 3-byte size field of index entries). "
                "Third-party and generated decoders (fxamacker/cbor, go-cid, go-car header, klauspost zstd, protobuf, the serde-generated bincode "
                "readers) are not modelled: they are exercised by the mutation harnesses only; the zstd decoder allocating the content size "
-               "DECLARED by a frame header is a recorded known finding (known-findings.txt). Native Go fuzzing is not wired into the tiers "
-               "(the mutation stream is deterministic from VERIF_SEED). Forced hypothesis of the block-time theorem: the input is an in-memory "
+               "DECLARED by a frame header is a recorded known finding (known-findings.txt); go-cid's CidFromReader may itself request up to "
+               "32 MiB for a declared digest (its own cap), which the CAR budgets include. Thorough tier: 10x the mutation stream and 40 s of "
+               "native coverage-guided fuzzing (instrumented binary built with the same overlay, corpus and crashers under .work/C12) for the "
+               "compact index, block-time, CAR and metadata parts. Forced hypothesis of the block-time theorem: the input is an in-memory "
                "byte slice (< 2^47 bytes). Trusted: Coq kernel; hand-written models tied by the correspondence; the Go runtime's rules for "
                "makeslice / slice bounds as transcribed (len > maxAlloc/elemsize or negative panics).",
     design_ref="5 (C12)",
